@@ -31,6 +31,7 @@
 From ASModel Require Import Base State Orderings_gen Step Run Progress Hist Inv InvTl InvProto InvStep Sum StepCases.
 From ASModel Require Import GenDefs Gen1 Gen2 Gen EnvDefs Env4 Env LinDefs Lin2 Lin LinCache.
 From ASModel Require Import Safe Main CchMain CchEx.
+From ASModel Require Import Stale Stale2 StaleC StaleCView StaleCInv StaleCInvEx.
 
 Theorem C16_revalidate :
   forall cf s l c a k x,
@@ -102,3 +103,99 @@ Print Assumptions C16_cache_linearizable.
 Print Assumptions C16_no_fault.
 Print Assumptions C16_cache_linearizable_total.
 Print Assumptions C16_scope_inhabited.
+
+(** ** The Relaxed revalidating read of [Cache::load] may be stale.
+
+    [StaleC.step_staleC] is [step] except that the read of `Cache::revalidate` ([Q1]) may be answered
+    with an OLDER value of the storage.  Unlike the loads weakened in [Stale2] its value IS trusted: a
+    stale value equal to the cached pointer makes the cache return its old value, so the statement for
+    sequentially consistent runs ([C16_cache_linearizable]) is FALSE for these runs
+    ([C16_stale_not_linearizable] below is a concrete run).  What C16 asks for - and what holds - is
+    freshness relative to happens-before, which [StaleCView.v] tracks with histories and views:
+    [vh c] the modification order of container [c], [vt t c] the newest write of [c] that
+    happens-before thread [t]'s next step (program order, and release/acquire through the storages),
+    [vc k] an index of the value cache [k] holds.  [RunOKSC] = [RunOKC] for such runs plus
+    [staleC_ok]: the value supplied is a write the thread may still read.
+
+    A completed [Cache::new]/[Cache::load] of cache [k] on container [c] leaves in the cache a value
+    [v] that is write number [j] of [c], where [j] is
+    - not older than anything that happens-before the call ([vt .. pa t c <= j]: FRESH), and
+    - for a load: not older than what the cache held before ([vc .. pa k <= j]: MONOTONE);
+    it is never a value that was not stored.  ([vc] after the command is [j], or - when a reload
+    returned the very pointer the cache held - an earlier write of the same value.) *)
+Theorem C16_cache_fresh_stale : forall cf inits progs sched t i cm c k pa pb xa tb xb,
+  let s0 := init_state inits progs in
+  RunOKSC cf inits progs sched ->
+  (forall p, NoCacheMove (StC cf s0 sched p)) ->
+  never_consumed c s0 ->
+  nth_error (t_prog (thr s0 t)) (N.to_nat i) = Some cm ->
+  cache_cmd_of (StC cf s0 sched pa) cm c k ->
+  (pa <= pb)%nat ->
+  nth_error sched pa = Some (t, xa) ->
+  t_status (thr (StC cf s0 sched pa) t) = Running ->
+  t_stack (thr (StC cf s0 sched pa) t) = [] ->
+  t_cmdi (thr (StC cf s0 sched pa) t) = i ->
+  nth_error sched pb = Some (tb, xb) ->
+  t_cmdi (thr (StC cf s0 sched pb) t) = i ->
+  t_cmdi (thr (StC cf s0 sched (S pb)) t) = i + 1 ->
+  exists v j,
+    hnd (StC cf s0 sched (S pb)) k = HCache c v /\
+    nth_error (vh (GC cf s0 sched (S pb)) c) j = Some v /\
+    (vt (GC cf s0 sched pa) t c <= j)%nat /\
+    (cm = CCacheLoad k -> (vc (GC cf s0 sched pa) k <= j)%nat) /\
+    nth_error (vh (GC cf s0 sched (S pb)) c) (vc (GC cf s0 sched (S pb)) k) = Some v /\
+    (vc (GC cf s0 sched (S pb)) k = j \/
+     (hnd (StC cf s0 sched pb) k = HCache c v /\ (vc (GC cf s0 sched (S pb)) k <= j)%nat)).
+Proof. exact C16_cache_fresh_staleC. Qed.
+
+(** No use after free in such runs (the cache keeps its old value alive). *)
+Theorem C16_no_fault_stale : forall cf inits progs sched,
+  RunOKSC cf inits progs sched ->
+  NoFault (run_state_staleC cf (init_state inits progs) sched) /\
+  forall te, In te (snd (run_staleC cf (init_state inits progs) sched)) ->
+    forall a, ~ In (EvFault (FDeadInc a)) (snd te) /\ ~ In (EvFault (FDeadDec a)) (snd te).
+Proof. exact C16_no_fault_staleC. Qed.
+
+(** What the views contain: a thread's own writes, for ever ... *)
+Theorem C16_own_write_seen : forall cf s0 sched p t c i q,
+  wrote cf s0 sched p t c i -> (S p <= q)%nat -> (i <= vt (GC cf s0 sched q) t c)%nat.
+Proof. exact own_write_seen. Qed.
+
+(** ... and whatever is handed over through ANY container: if [t] wrote [c] (write [i]) before it
+    wrote [c'], and [t'] then acquired [c'] (a SeqCst/Acquire load, a swap or a successful
+    compare-exchange), [t'] can no longer be served anything older than write [i] of [c]. *)
+Theorem C16_view_handover : forall cf s0 sched t c i p1 c' j p2 t' p3 q,
+  wrote cf s0 sched p1 t c i -> wrote cf s0 sched p2 t c' j -> (p1 < p2)%nat ->
+  acquired cf s0 sched p3 t' c' -> (p2 < p3)%nat -> (S p3 <= q)%nat ->
+  (i <= vt (GC cf s0 sched q) t' c)%nat.
+Proof. exact view_handover. Qed.
+
+(** Non-vacuity, and why the weaker statement is the right one: a concrete run within [RunOKSC] in
+    which a cache load (steps 56-57) returns its cached value 4096 through a stale revalidation after
+    another thread has completed a store of 4112 - in no state between the call and the return did
+    the container hold 4096. *)
+Theorem C16_stale_scope_inhabited : RunOKSC ca_cf ca_inits ca_progs ca_sched.
+Proof. exact RunOKSC_example. Qed.
+
+Theorem C16_stale_not_linearizable :
+  hnd (ca_St 58) 1 = HCache 0 4096 /\
+  forall j, (56 + 1 <= j <= 57 + 1)%nat -> mem (sh (ca_St j)) (LStore 0) <> 4096.
+Proof. exact (conj (proj2 (proj2 (proj2 (proj2 ca_stale_hit)))) ca_not_linearizable). Qed.
+
+(** All five weakened loads together ([StaleC.step_stale3], what the model driver runs): no thread
+    faults in any run within [RunOKS3]. *)
+Theorem C16_no_fault_stale3 : forall cf inits progs sched,
+  RunOKS3 cf inits progs sched ->
+  (forall k, NoFault (St3 cf (init_state inits progs) sched k)) /\
+  (forall k t x, nth_error sched k = Some (t, x) ->
+     forall a, ~ In (EvFault (FDeadInc a)) (snd (step_stale3 cf (St3 cf (init_state inits progs) sched k) t x)) /\
+               ~ In (EvFault (FDeadDec a)) (snd (step_stale3 cf (St3 cf (init_state inits progs) sched k) t x))).
+Proof. exact StaleCInv28.C16_no_fault_stale3. Qed.
+
+Print Assumptions C16_cache_fresh_stale.
+Print Assumptions C16_no_fault_stale.
+Print Assumptions C16_own_write_seen.
+Print Assumptions C16_view_handover.
+Print Assumptions C16_stale_scope_inhabited.
+Print Assumptions C16_stale_not_linearizable.
+Print Assumptions C16_no_fault_stale3.
